@@ -404,14 +404,46 @@ void _ZNSt8__detail15_List_node_base9_M_unhookEv(void* self) { struct vx_lnode* 
 /* ---- libc environment ---- */
 #ifndef VX_NATIVE_SELFTEST
 int dup(int fd) { return fd + 100; }
-static char vx_file[8];
-void* stdout = vx_file; void* stderr = vx_file; void* stdin = vx_file;
-void* fdopen(int fd, void* m) { return vx_file; }
+/* streams: a FILE object names an underlying file (0 stdin, 1 stdout, 2 stderr, 3.. created by vx_io_new); fdopen(dup(fd)) gives a
+ * new FILE object on the same file. Every write is logged per file: number of write calls and the first VX_IO_TEXT bytes. */
+#define VX_IO_FILES 8
+#define VX_IO_STREAMS 16
+#define VX_IO_TEXT 32
+struct vx_stream { int file; int pad; };
+static struct vx_stream vx_streams[VX_IO_STREAMS] = { {0, 0}, {1, 0}, {2, 0} };
+static int vx_nstreams = 3, vx_nfiles = 3;
+long vx_io_calls[VX_IO_FILES]; long vx_io_len[VX_IO_FILES]; char vx_io_buf[VX_IO_FILES][VX_IO_TEXT];
+void* stdin = &vx_streams[0]; void* stdout = &vx_streams[1]; void* stderr = &vx_streams[2];
+static int vx_io_file(void* f) {
+  if (__CPROVER_POINTER_OBJECT(f) != __CPROVER_POINTER_OBJECT(vx_streams)) return VX_IO_FILES - 1;     /* a stream of the harness (stubbed fopen): last file */
+  return ((struct vx_stream*)f)->file;
+}
+static void* vx_io_stream(int file) {
+  __CPROVER_assert(vx_nstreams < VX_IO_STREAMS, "model bound: number of streams");
+  vx_streams[vx_nstreams].file = file; return &vx_streams[vx_nstreams++];
+}
+static void vx_io_log(void* f, const char* s, long n) {
+  int k = vx_io_file(f); vx_io_calls[k]++;
+  long at = vx_io_len[k];
+  for (long i = 0; i < n && at + i < VX_IO_TEXT; i++) vx_io_buf[k][at + i] = s[i];
+  vx_io_len[k] = at + n;
+}
+void* vx_io_new(void) { __CPROVER_assert(vx_nfiles < VX_IO_FILES - 1, "model bound: number of files"); return vx_io_stream(vx_nfiles++); }
+static long vx_io_mark;
+void vx_io_begin(void) { vx_io_mark = vx_io_len[1]; }
+long vx_io_end(void) { return vx_io_len[1] - vx_io_mark; }
+long vx_io_written(void* f) { return vx_io_len[vx_io_file(f)]; }
+long vx_io_text(void* f, void* buf, long n) {
+  int k = vx_io_file(f); long m = vx_io_len[k] < VX_IO_TEXT ? vx_io_len[k] : VX_IO_TEXT; if (m > n) m = n;
+  for (long i = 0; i < m; i++) ((char*)buf)[i] = vx_io_buf[k][i];
+  return m;
+}
+void* fdopen(int fd, void* m) { int file = fd >= 100 ? fd - 100 : fd; return vx_io_stream(file >= 0 && file < VX_IO_FILES ? file : VX_IO_FILES - 1); }
 int fclose(void* f) { return 0; }
-int fileno(void* f) { return 1; }
+int fileno(void* f) { return vx_io_file(f); }
 int fflush(void* f) { return 0; }
-int fputs(void* s, void* f) { return 0; }
-int fputc(int c, void* f) { return c; }
+int fputs(void* s, void* f) { vx_io_log(f, (const char*)s, (long)vx_strlen((const char*)s)); return 0; }
+int fputc(int c, void* f) { char ch = (char)c; vx_io_log(f, &ch, 1); return c; }
 int isatty(int fd) { return 0; }
 int getpid(void) { return nondet_int(); }
 #endif
@@ -454,8 +486,8 @@ int vx_vsnprintf_long(char* out, uint64_t n, const char* f, va_list ap) {
 }
 #ifndef VX_NATIVE_SELFTEST
 int snprintf(void* buf, uint64_t n, void* fmt, ...) { va_list ap; va_start(ap, fmt); int r = vx_vsnprintf_long((char*)buf, n, (const char*)fmt, ap); va_end(ap); return r; }
-int fprintf(void* f, void* fmt, ...) { return 0; }
-uint64_t fwrite(void* p, uint64_t s, uint64_t n, void* f) { return n; }
+int fprintf(void* f, void* fmt, ...) { vx_io_log(f, (const char*)fmt, 1); return 0; }     /* formatted text: logged as one byte (the first of the format) */
+uint64_t fwrite(void* p, uint64_t s, uint64_t n, void* f) { vx_io_log(f, (const char*)p, (long)(s * n)); return n; }
 
 #endif
 /* bloc::Error::what() (inline in exception.h) when a harness cuts error-text formatting (--stub):
@@ -478,6 +510,10 @@ void _ZNK4bloc4Type8typeNameERKNSt7__cxx1112basic_stringIcSt11char_traitsIcESaIc
 void _ZNK4bloc5Value8toStringB5cxx11Ev(void* ret, void* self) { vx_str_init(S(ret), "", 0); }
 void _ZNK4bloc5Value8typeNameB5cxx11Ev(void* ret, void* self) { vx_str_init(S(ret), "", 0); }
 void _ZNK4bloc9TupleDecl4Decl9tupleNameB5cxx11Ev(void* ret, void* self) { vx_str_init(S(ret), "", 0); }
+/* rendering of decimals (%.16g; decided separately by the C12 number query): when cut, a fixed token per kind */
+void _ZN4bloc5Value15readableNumericB5cxx11ERd(void* ret, void* d) { vx_str_init(S(ret), "#num", 4); }
+void _ZN4bloc5Value15readableIntegerB5cxx11ERl(void* ret, void* l) { vx_str_init(S(ret), "#int", 4); }
+void _ZN4bloc5Value17readableImaginaryB5cxx11ERNS_9ImaginaryE(void* ret, void* i) { vx_str_init(S(ret), "(#img)", 6); }
 
 void _ZN4bloc3DBGEiPKcz(int level, void* fmt, ...) { }      /* bloc::DBG: debug logging, no effect on any property */
 void _ZN4bloc8DBGLevelEi(int level) { }
@@ -553,7 +589,11 @@ double pow(double x, double y) {
   if (y == 0.0) return 1.0;
   if (y == 1.0) return x;
   if (y == 2.0) return x * x;
-  return nondet_double(); }
+  double r = nondet_double();
+  /* C11 7.12.7.4 / Annex F.10.4.4: pow(+-0, y<0) is a pole (+-infinity); |x| >= 1 with y < 0 gives a magnitude of at most 1 */
+  if (x == 0.0 && y < 0.0) __CPROVER_assume(__CPROVER_isinfd(r));
+  else if (y < 0.0 && (x >= 1.0 || x <= -1.0)) __CPROVER_assume(r >= -1.0 && r <= 1.0);
+  return r; }
 double log(double x) { return nondet_double(); }
 double log10(double x) { return nondet_double(); }
 double exp(double x) { return nondet_double(); }
